@@ -3,7 +3,7 @@ import ast
 import z3
 
 from .vals import (Val, NONE, I, B, R, Z, Func, Closure, Bound, Cls, Builtin, TupleV, Partial, ArgPack, ModuleV,
-                   Unsupported, fresh, ref, strv, STRINGS, cls_of, is_callable, str_of, tb_of, has_attr, attr_of)
+                   Unsupported, fresh, ref, strv, STRINGS, cls_of, is_callable, str_of, tb_of, has_attr, attr_of, subclass_of)
 from .state import Event
 from . import b_cont, b_future, b_ops
 from .b_names import KwDict, MetricV, pk_len
@@ -72,6 +72,28 @@ def call_builtin(engine, st, fr, name, args, kwargs, star, starkw, node):
         obj = engine.refine_any(st, obj, an)
         has = b_cont.object_has_attr(engine, st, obj, an)
         if name == "hasattr":
+            oz = engine.resolve(st, obj)
+            ga = None
+            if isinstance(oz, Z) and isinstance(oz.ty, tuple) and oz.ty[0] == "inst" and has is not True:
+                _c, ga = engine.repo.lookup_method(oz.ty[1], "__getattr__")
+            if isinstance(ga, Func) and isinstance(has, bool):
+                # hasattr() is getattr() with AttributeError swallowed - any OTHER exception of a class's __getattr__ propagates
+                for st1, r in engine.call_func(st, fr, ga, [oz, an], {}, None, None, node, self_cls=_c.name):
+                    if isinstance(r, type(_Raise(None))):
+                        if engine.class_of_value(st1, r.exc) == "AttributeError":
+                            yield st1, False
+                        elif engine.class_of_value(st1, r.exc) is None:
+                            # an exception of unknown class: AttributeError or not
+                            for st2, isattr in engine.branch(st1, subclass_of(cls_of(Val.id(engine.to_val(st1, r.exc))), engine.tag("AttributeError")), "__getattr__ raised AttributeError"):
+                                if isattr:
+                                    yield st2, False
+                                else:
+                                    yield st2, r
+                        else:
+                            yield st1, r
+                    else:
+                        yield st1, True
+                return
             yield st, (has if isinstance(has, bool) else Z(has, "bool"))
             return
         for st1, h in engine.branch(st, has, "hasattr(%s)" % an):
@@ -349,7 +371,13 @@ def call_method(engine, st, fr, recv, mname, args, kwargs, star, starkw, node):
         # calling a weak reference: the referent or None
         t = st.get("$referent", Val.id(recv.t))
         inner = recv.ty[1] if isinstance(recv.ty, tuple) and len(recv.ty) > 1 else None
-        alive = fresh("alive", B)
+        # whether the referent is still alive is an observation at this instant (a weak reference can die at any time): an
+        # uninterpreted predicate of (the weak reference, the instant), so that one symbolic call inside a comprehension stands for
+        # one observation per element
+        tick = st.ghost.get("wr_tick", 0) + 1
+        st.ghost["wr_tick"] = tick
+        alive = z3.Function("wr_alive", I, I, B)(Val.id(recv.t), z3.IntVal(st.n_alloc * 1000 + tick))
+        st.ghost["wr_last"] = z3.IntVal(st.n_alloc * 1000 + tick)
         yield st, Z(z3.If(alive, t, NONE), ("opt", inner) if inner else None)
     elif kind == "object":
         yield st, None
@@ -384,6 +412,16 @@ def _metric(engine, st, fr, recv, name, a, kwargs, starkw, node):
         yield st, Z(ref(oid), "metric")
         return
     if name in ("inc", "dec"):
+        if a and not engine.is_numeric(a[0]):
+            # a non-numeric amount (e.g. None): prometheus_client raises TypeError, the null metrics ignore it
+            s2 = st.copy()
+            s2.decisions.append(("metric backend rejects a non-numeric amount", True))
+            yield s2, _Raise(engine.new_exc(s2, "TypeError", "metric amount is not a number"))
+            st.decisions.append(("metric backend rejects a non-numeric amount", False))
+            st.trace.append(Event("metric", meth=name, callee=m.name, args=[m.key if m.key is not None else z3.IntVal(0), z3.RealVal(0)],
+                                  site=engine.site(fr, node), held=list(st.held), extra={"non_numeric": True}))
+            yield st, None
+            return
         amt = engine.num(st, a[0]) if a else z3.IntVal(1)
         if amt.sort() == I:
             amt = z3.ToReal(amt)
@@ -480,6 +518,31 @@ def instantiate_builtin(engine, st, fr, ci, args, kwargs, star, starkw, node):
             else:
                 yield st, b_cont.list_from(engine, st, fr, src, name)
         return
+    if name == "set" and len(args) == 1:
+        src = engine.resolve(st, args[0])
+        if isinstance(src, Z) and isinstance(src.ty, tuple) and src.ty[0] in ("list", "deque", "tuple", "set"):
+            # set(sequence): the distinct elements - between 1 (if any) and len(sequence) of them, exactly the members of the sequence
+            out = b_cont.new_container(engine, st, "set", b_cont.elem_type(src.ty))
+            oid = Val.id(out.t)
+            n = st.get("$len", Val.id(src.t))
+            m = fresh("set_len", I)
+            st.assume(z3.And(m >= 0, m <= n, z3.Implies(n > 0, m >= 1)))
+            st.put("$len", oid, m)
+            if src.ty[0] == "set":
+                st.put("$mem", oid, st.get("$mem", Val.id(src.t)))
+                st.assume(m == n)
+            else:
+                mem = fresh("set_mem", z3.ArraySort(Val, B))
+                i = z3.Int("i!set")
+                x = z3.Const("x!set", Val)
+                at = st.get("$at", Val.id(src.t))
+                # (membership of each element is left unconstrained beyond the first and last: a quantified axiom here makes refutations
+                # of length clauses time out; what is kept is an over-approximation, sound for proofs)
+                st.assume(z3.Implies(n > 0, z3.And(z3.Select(mem, z3.Select(at, 0)), z3.Select(mem, z3.Select(at, n - 1)))))
+                st.assume(z3.Implies(n == 0, mem == z3.K(Val, z3.BoolVal(False))))
+                st.put("$mem", oid, mem)
+            yield st, out
+            return
     if name in ("set", "dict", "deque"):
         if args:
             raise Unsupported("%s(iterable)" % name)
